@@ -120,12 +120,14 @@ def run(case):
         ec_map = [int(m) for m in cube.extra_coords.mapping]
         cur = cube
         chain = []
+        stages = []          # (cube, chain prefix) of every intermediate result
         user = {}
         statuses = []
         for st in case["steps"]:
             if "items" in st:
                 tags.append("op=slice")
                 try:
+                    stages.append((cur, list(chain)))
                     cur = cur[C.to_py_index(st["items"])]
                     chain.append(st["items"])
                     statuses.append("ok")
@@ -161,69 +163,91 @@ def run(case):
                     statuses.append(err_kind(e))
                     if st["remove"] in user:
                         fails.append(f"remove({st['remove']!r}) raised {type(e).__name__}")
-        # ---- observe
-        try:
-            gc = cur.global_coords
-            n = len(gc)
-            got = {k: (gc.physical_types[k], gc[k]) for k in gc}
-            got2 = {k: (gc.physical_types[k], gc[k]) for k in gc}
-        except Exception as e:
-            fails.append(f"reading global_coords raised {type(e).__name__}: {str(e)[:120]}")
+        # ---- observe: the final cube, then every intermediate cube again (they must not have
+        # been changed by the slices taken from them), then a sibling slice of each intermediate
+        def observe(cur, chain, label, check_user):
+            try:
+                gc = cur.global_coords
+                n = len(gc)
+                got = {k: (gc.physical_types[k], gc[k]) for k in gc}
+                got2 = {k: (gc.physical_types[k], gc[k]) for k in gc}
+            except Exception as e:
+                fails.append(f"{label}reading global_coords raised {type(e).__name__}: {str(e)[:120]}")
+                return None
+            if list(got) != list(got2) or n != len(got):
+                fails.append(f"{label}global_coords read twice gives {list(got)} then {list(got2)} (len {n})")
+            surv = E.surviving_axes(nd, [C.to_py_index(it) for it in chain])
+            idx = np.indices(cube.data.shape)
+            src0 = []
+            for ix in idx:
+                a = ix
+                for it in chain:
+                    a = a[C.to_py_index(it)]
+                src0.append(int(a.flat[0]))
+            src_pix = src0[::-1]
+            exp = expected_dropped(orig_ll, [nd - 1 - p for p in range(orig_ll.pixel_n_dim)], src_pix, surv, nd, "wcs")
+            if ec_ll is not None:
+                exp += expected_dropped(ec_ll, [nd - 1 - m for m in ec_map], [src_pix[m] for m in ec_map], surv, nd, "ec", ec_groups(case["ecs"]))
+            if check_user:
+                for name, pt in user.items():
+                    if name not in got:
+                        fails.append(f"user coordinate {name!r} is missing after the history")
+                    elif got[name][0] != pt or not (got[name][1] == user_value(name)):
+                        fails.append(f"user coordinate {name!r} changed: {got[name]}")
+            derived = {k: v for k, v in got.items() if not (isinstance(k, str) and (k.startswith("u") and k[1:].isdigit()))}
+            groups = {}
+            for e in exp:
+                groups.setdefault((e["src"], e["key"]), []).append(e)
+            unused = dict(derived)
+            for (srcname, key), grp in groups.items():
+                want_pt = tuple(e["ptype"] for e in grp)
+                hit = None
+                problems = []
+                for k, (pt, obj) in unused.items():
+                    ptt = tuple(pt) if isinstance(pt, (tuple, list)) else (pt,)
+                    if ptt != want_pt:
+                        continue
+                    try:
+                        vals = [float(np.asarray(getattr(e["get"](obj), "value", e["get"](obj)))) for e in grp]
+                    except Exception as ex:
+                        problems.append(f"{k}: accessor failed {type(ex).__name__}")
+                        continue
+                    diff = [((a - e["value"] + 180.0) % 360.0 - 180.0) if e["deg"] else (a - e["value"]) for a, e in zip(vals, grp)]
+                    if np.allclose(diff, 0, rtol=0, atol=1e-9 * max(1.0, max(abs(e["value"]) for e in grp))):
+                        hit = k
+                        break
+                    problems.append(f"{k} holds {vals}")
+                if hit is None:
+                    fails.append(f"{label}dropped {srcname} coordinate(s) {[e['name'] for e in grp]} {list(want_pt)} with value(s) "
+                                 f"{[e['value'] for e in grp]} at the sliced-away index not in global_coords ({'; '.join(problems) or 'no entry of that physical type'})")
+                else:
+                    unused.pop(hit)
+            if unused and not fails:
+                fails.append(f"{label}global_coords lists {list(unused)} although nothing of the kind was dropped")
+            return exp
+
+        exp = observe(cur, chain, "", True)
+        if exp is None:
             raise StopIteration
-        if list(got) != list(got2) or n != len(got):
-            fails.append(f"global_coords read twice gives {list(got)} then {list(got2)} (len {n})")
-        surv = E.surviving_axes(nd, [C.to_py_index(it) for it in chain])
-        idx = np.indices(cube.data.shape)
-        src0 = []
-        for ix in idx:
-            a = ix
-            for it in chain:
-                a = a[C.to_py_index(it)]
-            src0.append(int(a.flat[0]))
-        src_pix = src0[::-1]
-        exp = expected_dropped(orig_ll, [nd - 1 - p for p in range(orig_ll.pixel_n_dim)], src_pix, surv, nd, "wcs")
-        if ec_ll is not None:
-            exp += expected_dropped(ec_ll, [nd - 1 - m for m in ec_map], [src_pix[m] for m in ec_map], surv, nd, "ec", ec_groups(case["ecs"]))
         if exp:
             res["nontrivial"] = repr(sorted(case.items(), key=str))
         tags.append(f"dropped={min(len(exp), 4)}")
-        # user coordinates
-        for name, pt in user.items():
-            if name not in got:
-                fails.append(f"user coordinate {name!r} is missing after the history")
-            elif got[name][0] != pt or not (got[name][1] == user_value(name)):
-                fails.append(f"user coordinate {name!r} changed: {got[name]}")
-        derived = {k: v for k, v in got.items() if k not in user}
-        # every expected dropped coordinate is there with type and value
-        groups = {}
-        for e in exp:
-            groups.setdefault((e["src"], e["key"]), []).append(e)
-        unused = dict(derived)
-        for (srcname, key), grp in groups.items():
-            want_pt = tuple(e["ptype"] for e in grp)
-            hit = None
-            problems = []
-            for k, (pt, obj) in unused.items():
-                ptt = tuple(pt) if isinstance(pt, (tuple, list)) else (pt,)
-                if ptt != want_pt:
-                    continue
-                try:
-                    vals = [float(np.asarray(getattr(e["get"](obj), "value", e["get"](obj)))) for e in grp]
-                except Exception as ex:
-                    problems.append(f"{k}: accessor failed {type(ex).__name__}")
-                    continue
-                diff = [((a - e["value"] + 180.0) % 360.0 - 180.0) if e["deg"] else (a - e["value"]) for a, e in zip(vals, grp)]
-                if np.allclose(diff, 0, rtol=0, atol=1e-9 * max(1.0, max(abs(e["value"]) for e in grp))):
-                    hit = k
+        if not fails:
+            for k, (c_k, chain_k) in enumerate(stages):
+                observe(c_k, chain_k, f"[intermediate cube {k} re-read after it was sliced] ", False)
+                if fails:
                     break
-                problems.append(f"{k} holds {vals}")
-            if hit is None:
-                fails.append(f"dropped {srcname} coordinate(s) {[e['name'] for e in grp]} {list(want_pt)} with value(s) "
-                             f"{[e['value'] for e in grp]} at the sliced-away index not in global_coords ({'; '.join(problems) or 'no entry of that physical type'})")
-            else:
-                unused.pop(hit)
-        if unused and not fails:
-            fails.append(f"global_coords lists {list(unused)} although nothing of the kind was dropped")
+                # a sibling: slice the intermediate again, differently (integer on its last axis)
+                try:
+                    sib_items = [C.sl()] * (c_k.data.ndim - 1) + [-1] if c_k.data.ndim > 1 else None
+                    if sib_items:
+                        sib = c_k[C.to_py_index(sib_items)]
+                        observe(sib, chain_k + [sib_items], f"[sibling slice [..., -1] of intermediate cube {k}] ", False)
+                        tags.append("sibling")
+                except Exception as e:
+                    fails.append(f"sibling slice of intermediate cube {k} raised {type(e).__name__}: {str(e)[:100]}")
+                if fails:
+                    break
         # ---- what the implementation's own bookkeeping says (for the model)
         sll = cur.wcs.low_level_wcs
         dwd = getattr(sll, "dropped_world_dimensions", None) or {}
@@ -287,6 +311,7 @@ def compare(case, r, m):
 
 def signature(case, failure):
     kinds = [e["kind"] for e in case["ecs"]]
+    kinds = ["quantity2" if k == "quantity3" else k for k in kinds]
     if ("quantity2" in kinds and kinds.count("quantity") + kinds.count("quantity2") >= 2 and "dropped ec coordinate" in failure
             and ("'qa" in failure or "'qb" in failure)):
         return "quantity2-beside-quantity-table:object-key-collision"
